@@ -7,6 +7,7 @@ import (
 	"context"
 	"errors"
 	"fmt"
+	"github.com/ozontech/seq-db/logger"
 	"sort"
 	"testing"
 	"time"
@@ -42,13 +43,13 @@ type C09Case struct {
 	VolumeThr    int64                `json:"breaker_volume_threshold"`
 	ErrPct       int64                `json:"breaker_error_pct"`
 	SleepWinMs   int                  `json:"breaker_sleep_window_ms"`
-	Script       map[string][]Outcome `json:"script"` // host -> outcome of its n-th Bulk call; past the end: ok
+	Script       map[string][]Outcome `json:"script"`  // host -> outcome of its n-th Bulk call; past the end: ok
 	Clients      [][]int              `json:"clients"` // per client: sizes of the payloads it stores, one StoreDocuments each
 	// request context of the clients' StoreDocuments calls: 0 = none, >0 = deadline after that many
 	// simulated ms (the caller gives up while attempts are under way), <0 = cancelled before the call
-	CtxMs        int                  `json:"ctx_ms,omitempty"`
-	PSync        float64              `json:"p_sync"`
-	Schedule     []int                `json:"schedule,omitempty"`
+	CtxMs    int     `json:"ctx_ms,omitempty"`
+	PSync    float64 `json:"p_sync"`
+	Schedule []int   `json:"schedule,omitempty"`
 }
 
 type Violation struct {
@@ -161,7 +162,14 @@ func (st *stubStore) Bulk(ctx context.Context, in *pb.BulkRequest, _ ...grpc.Cal
 			err = errors.New("stub: reply lost")
 		}
 	case "hang":
-		<-func() <-chan struct{} { t := verifsim.BeforeBlock(5); defer verifsim.AfterBlock(t); <-ctx.Done(); c := make(chan struct{}); close(c); return c }()
+		<-func() <-chan struct{} {
+			t := verifsim.BeforeBlock(5)
+			defer verifsim.AfterBlock(t)
+			<-ctx.Done()
+			c := make(chan struct{})
+			close(c)
+			return c
+		}()
 		err = ctx.Err()
 	}
 	call.ok = err == nil
@@ -204,6 +212,7 @@ func hostsOf(prefix string, shards, replicas int) *stores.Stores {
 
 // RunC09 executes one case in its own bubble.
 func RunC09(t *testing.T, c *C09Case) *RunResult {
+	logger.ResetSink()
 	res := &RunResult{Seed: c.Seed, Fired: map[string]int{}, Probes: map[string]int{}}
 	r := &c09Runner{c: c, res: res}
 	circuitbreaker.VerifReset()
@@ -222,6 +231,7 @@ func RunC09(t *testing.T, c *C09Case) *RunResult {
 	if len(res.Trace) > 120 {
 		res.Trace = res.Trace[len(res.Trace)-120:]
 	}
+	logProbes(res)
 	switch {
 	case len(s.Failures) > 0:
 		res.Outcome, res.Infra = "infra", fmt.Sprint(s.Failures)
